@@ -155,6 +155,20 @@ fn check_cli(c: char, l: &str, r: &str) -> Result<(), (String, String)> {
     if s.editor().cursor != ln {
         return Err((format!("cursor {} after moving left over {:?}", ln, format!("{}{}", cs, r)), format!("{}", s.editor().cursor)));
     }
+    // the application redraws the line while the cursor stands left of X (prompt change): the terminal must show the
+    // line with X in it and the cursor where the editor has it
+    s.set_prompt(0).map_err(|x| ("set_prompt: Ok".to_string(), format!("{:?}", x)))?;
+    {
+        let mut sc = vmodel::screen::Screen::new();
+        sc.feed(&s.out_from(0));
+        let want = format!("$ {}", typed);
+        if sc.inconclusive.is_none() && (sc.current_line().trim_end_matches(' ') != want.trim_end_matches(' ') || sc.col != 2 + ln) {
+            return Err((
+                format!("after set_prompt with the cursor left of {:?}: terminal line {:?}, cursor column {}", cs, want, 2 + ln),
+                format!("terminal line {:?}, cursor column {}", sc.current_line(), sc.col),
+            ));
+        }
+    }
     type_str(&mut s, "\x1b[C").map_err(e)?;
     if s.editor().cursor != ln + 1 {
         return Err((format!("cursor {} after moving right over {:?}", ln + 1, cs), format!("{}", s.editor().cursor)));
@@ -208,6 +222,21 @@ fn check_cli(c: char, l: &str, r: &str) -> Result<(), (String, String)> {
     type_str(&mut s, "\x1b[A").map_err(e)?;
     if s.editor().bytes != line.as_bytes() {
         return Err((format!("Up recalls {:?}", line), format!("{:?}", String::from_utf8_lossy(&s.editor().bytes))));
+    }
+    // the recalled line is edited like a typed one: delete its last character, retype it, step left and right
+    let last = line.chars().last().unwrap();
+    let n = line.chars().count();
+    type_str(&mut s, "\x08").map_err(e)?;
+    let shorter: String = line.chars().take(n - 1).collect();
+    let ed = s.editor();
+    if ed.bytes != shorter.as_bytes() || ed.cursor != n - 1 {
+        return Err((format!("recalled line after Backspace: {:?} cursor {}", shorter, n - 1), format!("{:?} cursor {}", String::from_utf8_lossy(&ed.bytes), ed.cursor)));
+    }
+    type_str(&mut s, &last.to_string()).map_err(e)?;
+    type_str(&mut s, "\x1b[D\x1b[C").map_err(e)?;
+    let ed = s.editor();
+    if ed.bytes != line.as_bytes() || ed.cursor != n {
+        return Err((format!("recalled line after retyping its last character: {:?} cursor {}", line, n), format!("{:?} cursor {}", String::from_utf8_lossy(&ed.bytes), ed.cursor)));
     }
     type_str(&mut s, "\n").map_err(e)?;
     verify(&s, 2)?;
